@@ -220,6 +220,13 @@ for opn, nm in ((0, 'union'), (1, 'intersection'), (2, 'difference'), (3, 'compl
       desc='%s (real operations/%s.cc: constructor flags + terminal cases of _compute): operands 0 / true / non-terminal, same or different forests, every reduction-rule combination '
            '(sets: fully, quasi; relations: fully, quasi, identity), level L in [-3,3], any incoming index; judged pointwise under the rules\' semantics of skipped levels; recursion cut' % (nm, nm))
 
+# ---------------------------------------------------------------- C11 (L1: cardinality of the functions an edge denotes without a node)
+for rt, nm in ((0, 'int'), (1, 'real')):
+    J('C11', 'c11_card_%s' % nm, 'c11_card.cc', 'c11_card', units=['ct_entry_type.cc', 'compute_table.cc', 'node_headers.cc', 'arrays.cc', 'memstats.cc', 'statset.cc', 'varorder.cc', 'oper_item.cc', 'edge_value.cc', 'error.cc'],
+      defines={'RT': rt}, gxx_units=['ALL'], gxx_exclude=['operations/cardinality.cc'], gxx_extra=['-Wl,--allow-multiple-definition'],
+      unwind=10, timeout=900, backend='z3', covers=[1, 2],
+      desc='cardinality (%s result, real operations/cardinality.cc, real constructor): operand empty or the terminal true at level L in [-2,2] of a set / relation forest under every reduction rule, all level sizes symbolic in [1,1023]; recursion over skipped levels real, unpacking of nodes cut' % nm)
+
 # ---------------------------------------------------------------- C17 (L2: forest / edge registries under a bounded lifecycle history)
 for k, tier, to in ((3, 'quick', 1500), (4, 'quick', 2400), (5, 'thorough', 7200), (6, 'thorough', 14400)):
     J('C17', 'c17_registry_k%d' % k, 'c17_registry.cc', 'c17_registry', units=['forest.cc', 'dd_edge.cc', 'edge_value.cc', 'policies.cc', 'error.cc'],
